@@ -141,6 +141,25 @@ def rule_fresh(ctx) -> None:
     rt = ctx.func(RUN_TURN)
     rcfg = ctx.cfg(rt)
     runs = [n for n in rcfg.nodes if any(call_tail(c) == "_run_reflection_if_enabled" for c in node_calls(n))]
+    # per-turn values that run_turn parks on ctx are written on EVERY turn: a `setattr(ctx, A, f(ctx.<turn input>))` that runs
+    # only `if not hasattr(ctx, A)` keeps the first turn's value on a ctx object reused across turns (now_iso -> the timestamp
+    # of every later reflection entry)
+    rcfg = ctx.cfg(rt)
+    n_park = 0
+    for n in rcfg.nodes:
+        for c in node_calls(n):
+            if dotted(c.func) == "setattr" and len(c.args) == 3 and isinstance(c.args[0], ast.Name) and c.args[0].id == rt.params[1] and const_str(c.args[1]):
+                attr = const_str(c.args[1])
+                dep = any(isinstance(z, ast.Call) and dotted(z.func) == "getattr" and len(z.args) >= 2 and isinstance(z.args[0], ast.Name) and z.args[0].id == rt.params[1]
+                          for z in ast.walk(ctx.rd(rt).inline(c.args[2], n)))
+                if not dep:
+                    continue
+                n_park += 1
+                stale = any((not pol) and t.replace('"', "'") == f"hasattr({rt.params[1]}, '{attr}')" for t, pol in rcfg.facts(n))
+                ctx.check(not stale, "C19.FRESH", ctx.okey(f"{rt.qual}/per-turn-ctx-value-rewritten"), rt.loc(c), f"ctx.{attr} is derived from this turn's inputs on every turn",
+                          f"ctx.{attr} is derived from this turn's inputs only `if not hasattr(ctx, '{attr}')`: a ctx object reused across turns keeps the first turn's value - "
+                          "reflection entries of later turns get the first turn's timestamp, so id and timestamp are not functions of agent, turn, slot and text")
+    ctx.floor("C19.FRESH", "per-turn values parked on ctx by run_turn", n_park, 1)
     ctx.floor("C19.FRESH", "runner call in run_turn", len(runs), 1)
     reads = [(n, c) for n in rcfg.nodes for c in node_calls(n) if dotted(c.func) == "getattr" and len(c.args) >= 2 and const_str(c.args[1]) == "_reflection_result"]
     ctx.floor("C19.FRESH", "reads of ctx._reflection_result in run_turn", len(reads), 2)
